@@ -256,6 +256,12 @@ def _c12_pair(r):
     """(old, new) region dicts biased to 'new almost contains old'."""
     k = r.random()
     cx, cy = r.choice([15.0, 20.0, 32.5]), r.choice([15.0, 18.0, 40.0])
+    if r.random() < 0.06:
+        # a circle defined with a negative radius (adds are always accepted), replaced by something small
+        old = {"type": "CircularRegion", "cx": cx, "cy": cy, "r": -r.choice([6.0, 3.0])}
+        new = r.choice([{"type": "RectangularRegion", "x1": cx - 1, "y1": cy - 1, "x2": cx + 1, "y2": cy + 1},
+                        {"type": "CircularRegion", "cx": cx, "cy": cy, "r": 0.5}])
+        return old, new
     if k < 0.35:
         rad = r.choice([5.0, 6.5, 10.0])
         d = [r.choice([0.2, 0.5, 0.62, 0.7, 0.8, 0.95]) * rad for _ in range(4)]
@@ -705,7 +711,7 @@ def run_property(pid, tier, seed):
             if found:
                 found["from"] = "shrunk correspondence mismatch"
                 break
-        elif d.get("kind") == "plugin" and okind in ("plugin", "c12"):
+        elif d.get("kind") == "plugin" and (okind in ("plugin", "c12") or pid == "C06"):
             from . import oracle_plugin
             v = oracle_plugin.judge_plugin(d["settings"], d["ops"], [pid])
             if v:
@@ -722,6 +728,9 @@ def run_property(pid, tier, seed):
     if found is None:
         try:
             found = SEARCH[okind](pid, r, n, stats)
+            if found is None and pid == "C06":
+                # scripts and deferred commands through the plugin's hooks, print by print
+                found = search_plugin(pid, r, max(30, n // 10), stats)
         except Exception as exc:  # pylint: disable=broad-except
             notes.append("oracle search crashed: %s: %s" % (type(exc).__name__, exc))
             broken.append({"tie": "oracle", "detail": "oracle search crashed: %s: %s" % (type(exc).__name__, exc)})
